@@ -62,6 +62,13 @@ def payload(p, i, big):
     return BIG if big else 'v%s.%s' % (p, i)
 
 
+class Unpicklable:
+    """An object the feeder thread cannot serialise."""
+
+    def __reduce__(self):
+        raise TypeError('this object cannot be pickled')
+
+
 def ident(v):
     """(producer, index, 'ok' | 'changed') of a received object."""
     try:
@@ -152,6 +159,8 @@ def _short_io(world, op, fd, n):
 # ------------------------------------------------------------------ execution
 def run(cfg, prefix):
     global _CUR
+    if cfg.get('bad'):
+        cfg = dict(cfg, bad={int(k): v for k, v in cfg['bad'].items()})
     env = Env(cfg, prefix)
     sched = env.sched
     kind, maxsize = cfg['kind'], cfg.get('maxsize', 0)
@@ -196,7 +205,7 @@ def run(cfg, prefix):
                 c, pid = copy('p%d' % p, P_PID + p)
                 roles.append(('P%d' % p, pid, _producer(env, p, c, op, n, big,
                                                         kind)))
-            env.tickets = sum(n for _, n, _ in prods)
+            env.tickets = sum(n for _, n, _ in prods) - len(cfg.get('bad', {}))
             env.prod_left = len(prods) if pthreads else 0
             for j, op in enumerate(cons):
                 c, pid = copy('c%d' % j, C_PID + j)
@@ -240,6 +249,8 @@ def _producer(env, p, q, op, n, big, kind):
     def body():
         for i in range(n):
             val = (p, i, payload(p, i, big == i))
+            if env.cfg.get('bad', {}).get(p) == i:
+                val = (p, i, Unpicklable())
             while True:
                 env.ev('put_call', p, i, op)
                 try:
@@ -259,7 +270,11 @@ def _producer(env, p, q, op, n, big, kind):
                                     lambda: sl._get_value() > 0)
                     continue
                 env.nput_ok += 1
-                env.ev('put_ok', p, i)
+                if env.cfg.get('bad', {}).get(p) == i:
+                    # accepted, but it can never be delivered
+                    env.ev('put_bad', p, i)
+                else:
+                    env.ev('put_ok', p, i)
                 break
         if env.prod_left:
             # a thread of a multi-threaded producer process: the thread that
@@ -353,8 +368,8 @@ def _oracle(env, status):
     if errs:
         return 'exception escaped from a queue operation: %r' % (errs,)
     expected = sorted((p, i, 'ok') for p, (_, n, _) in enumerate(cfg['prods'])
-                      for i in range(n))
-    puts = _attempts(log, 'put_call', ('put_ok', 'put_full'))
+                      for i in range(n) if cfg.get('bad', {}).get(p) != i)
+    puts = _attempts(log, 'put_call', ('put_ok', 'put_full', 'put_bad'))
     gets = _attempts(log, 'get_call', ('get_ok', 'get_empty'))
     got = [e[2] for e in log if e[0] == 'get_ok']
     # -- values unchanged, nothing duplicated, nothing invented
@@ -606,6 +621,15 @@ def base_configs(tier):
                 for n in (1, 2):
                     add(kind='queue', maxsize=maxsize, prods=[_P(pop, n)],
                         cons=[gop], orig='p0')
+    # ---- Queue: one object that cannot be serialised among good ones (it
+    # cannot be delivered; the others must be, and its place is given back)
+    for maxsize in (0, 1, 2):
+        add(kind='queue', maxsize=maxsize, prods=[_P('put', 2)],
+            cons=['get'], orig='p0', bad={0: 0})
+        add(kind='queue', maxsize=maxsize, prods=[_P('put', 3)],
+            cons=['get'], orig='p0', bad={0: 1})
+        add(kind='queue', maxsize=maxsize, prods=[_P('put', 2), _P('put', 1)],
+            cons=['get', 'get'], orig=None, bad={0: 0})
     # the creating process consumes instead
     for maxsize in (0, 1):
         add(kind='queue', maxsize=maxsize, prods=[_P('put', 2)],
